@@ -17,7 +17,7 @@ let lbl_name = function
   | InitFail _ -> "InitFail" | Store _ -> "Store" | FailSent _ -> "FailSent" | RecvLoad _ -> "RecvLoad"
   | RecvFinish _ -> "RecvFinish" | StreamFail _ -> "StreamFail" | Abort _ -> "Abort" | Return _ -> "Return"
   | Close -> "Close" | Restart -> "Restart" | RecvPanic _ -> "RecvPanic" | FailPanic _ -> "FailPanic"
-  | CloseFail _ -> "CloseFail" | QueueFail _ -> "QueueFail"
+  | CloseFail _ -> "CloseFail" | QueueFail _ -> "QueueFail" | IdleFail _ -> "IdleFail"
 let xlbl_name = function
   | XSubmit _ -> "XSubmit" | XFetch _ -> "XFetch" | XBuildRound _ -> "XBuildRound" | XClean -> "XClean"
   | XNoConn -> "XNoConn" | XSendExit -> "XSendExit" | XIdleExit -> "XIdleExit" | XWake -> "XWake" | XCore l -> lbl_name l
@@ -440,7 +440,7 @@ let () =
     bump "scenarios" 1; bump ("class:" ^ cls) 1; bump "events" (List.length s.evs);
     let bf = blackbox s in
     Printf.printf "BLACKBOX\t%s\t%d\n" s.id bf;
-    let newpool = List.exists (fun e -> match e with "CLOSE" :: "addr" :: _ -> true | _ -> false) s.evs in
+    let newpool = List.exists (fun e -> match e with "CLOSE" :: "addr" :: _ | "INJ" :: "idle" :: _ -> true | _ -> false) s.evs in
     (* the acceptor replays one pool per store, with one lane per (connection, forwarded host); a pool re-created after
        CloseAddr / idle recycling, the non-batch path, the collapse wrapper and the async-calls-racing-with-Close class (an entry failed by the sender's re-check may still be
        sent by a send loop that has not exited yet) are black-box only *)
